@@ -1225,15 +1225,38 @@ func init() {
 		sc.Faults = FaultCfg{}
 		sc.Custom = func(w *World) {
 			tm := gbn.NewTimeOutManager(nil)
-			q := gbn.VerifNewQueue(4, tm, func(*gbn.PacketData) error { return nil })
+			resend := p.has("resend")
+			q := gbn.VerifNewQueue(4, tm, func(pkt *gbn.PacketData) error {
+				if resend {
+					// what sendPacket does with a packet of the queue: it
+					// serialises it and hands it to the transport (a
+					// scheduling point: acknowledgements are processed
+					// while a retransmission is being written)
+					_, err := pkt.Serialize()
+					vrt.Point("queue3.sendPkt")
+					return err
+				}
+				return nil
+			})
 			w.spawnApp("sendloop", func() {
 				for i := 0; i < 3; i++ {
 					if q.Size() < 3 {
 						q.AddPacket(&gbn.PacketData{Payload: []byte{byte(i)}})
 					}
 				}
+				if resend {
+					// the resend timer fired: go back N
+					_ = q.Resend()
+				}
 			})
 			w.spawnApp("recvloop", func() {
+				if resend {
+					// the delayed acknowledgements arrive meanwhile
+					q.ProcessACK(0)
+					q.ProcessACK(1)
+					q.ProcessACK(2)
+					return
+				}
 				q.ProcessNACK(2) // nothing of the kind outstanding (yet)
 				q.ProcessACK(1)  // possibly out of order
 				q.ProcessACK(0)
